@@ -96,3 +96,132 @@ class BackendConvert(Contract):
         q2 = b.convert(SigmaCollection.from_yaml(rule))
         fresh = TextQueryTestBackend(mk("b_")).convert(SigmaCollection.from_yaml(rule))
         return None if q2 == fresh else f"second convert() after exchanging backend.processing_pipeline gave {q2}, a fresh backend gives {fresh} (first run: {q1})"
+
+
+# ----------------------------------------------------------------------------------------------- convert_rule
+def may_fail(I, tag):
+    """abstract callee failure: raises a Sigma error object (fresh) on one branch"""
+    ok = I.fresh(tag + "_ok", "bool")
+    if not I.ctx.branch(ok.t):
+        from pyvc.interp import PyRaise
+        e = SObj(I.E.index.lookup("sigma.exceptions:SigmaError"), {}, lazy=True)
+        e.ghost["raised_by"] = tag
+        I.E._c08_raised.append(e)
+        raise PyRaise(e)
+
+
+@register
+class ConvertRule(Contract):
+    """Backend.convert_rule with abstract pipeline / condition conversion / finish / callback / finalize (each may return anything or
+    raise a Sigma error at any stage).  Normal exit: one finalized query per condition whose query is not None, in condition order,
+    one fresh ConversionState per condition; a Sigma error with error collection: no query and exactly one (rule, error) record and
+    nothing else written; without collection the error propagates.  0..2 conditions (unrolled)."""
+    id = "C08.Backend.convert_rule"
+    target = "sigma.conversion.base:Backend.convert_rule"
+    props = ("C08", "C14", "C15")
+    cases = tuple((n, br, fin) for n in (0, 1, 2) for br in (False, True) for fin in (False, True))
+    max_paths = 6000
+    assumed = ["callees are abstract: apply / convert_condition / finish_query / callback / finalize_query return a fresh value, None where allowed, or raise a Sigma error",
+               "rules with 0..2 conditions (unrolled)", "non-Sigma exceptions of callees are re-raised (not modelled)"]
+
+    def setup(self, E):
+        def s_cc(I, so, a, k):
+            cond = a[0]
+            I.E._c08_trace.append(("convert", cond, a[1]))
+            may_fail(I, f"convert{cond.ghost['i']}")
+            return SOpt(z3.Bool(I.ctx.fresh_name(f"q{cond.ghost['i']}_none")), I.fresh(f"q{cond.ghost['i']}", "opaque", "Query"))
+        E.summaries["sigma.conversion.base:Backend.convert_condition"] = s_cc
+
+        def s_finish(I, so, a, k):
+            I.E._c08_trace.append(("finish", a[1], a[2]))
+            may_fail(I, "finish")
+            r = I.fresh("finished", "opaque", "Query")
+            I.E._c08_finished[id(r)] = a[1]
+            return r
+        E.summaries["sigma.conversion.base:Backend.finish_query"] = s_finish
+
+        def s_finalize(I, so, a, k):
+            I.E._c08_trace.append(("finalize", a[1], a[2], a[3], a[4]))
+            may_fail(I, "finalize")
+            r = I.fresh("finalized", "opaque", "Query")
+            return r
+        E.summaries["sigma.conversion.base:Backend.finalize_query"] = s_finalize
+        E.summaries["sigma.conversion.base:Backend.init_processing_pipeline"] = lambda I, so, a, k: I.E._c08_trace.append(("init",))
+
+    def args(self, I, case):
+        n, backrefs, fin_sub = case
+        I.E._c08_trace, I.E._c08_raised, I.E._c08_finished = [], [], {}
+        idx = I.E.index
+
+        def f_apply(I2, a, k):
+            I2.E._c08_trace.append(("apply", a[0]))
+            may_fail(I2, "apply")
+        pipe = SObj("Pipeline", {"apply": NativeFn("apply", f_apply), "state": {"k": "v"}})
+        conds = []
+        for i in range(n):
+            c = SObj("Cond", {"parsed": SObj("Parsed", {}, ghost={"i": i})})
+            conds.append(c)
+        stored = {}
+        rule = SObj(idx.lookup("sigma.rule.rule:SigmaRule"), {
+            "detection": SObj("Detections", {"parsed_condition": conds}), "_backreferences": ["corr"] if backrefs else [], "_output": I.fresh("output", "bool"),
+            "set_conversion_result": NativeFn("scr", lambda I2, a, k: stored.__setitem__("result", a[0])), "set_conversion_states": NativeFn("scs", lambda I2, a, k: stored.__setitem__("states", a[0])),
+            "source": None}, lazy=True)
+        old_errors = [("old", "err")]
+        me = SObj(idx.lookup("sigma.conversion.base:Backend"), {"last_processing_pipeline": pipe, "collect_errors": I.fresh("collect_errors", "bool"), "errors": list(old_errors),
+                                                                "finalize_correlation_subqueries": fin_sub, "default_format": "default"}, lazy=True)
+        cb_none = z3.Bool(I.ctx.fresh_name("callback_none"))
+
+        def f_cb(I2, a, k):
+            I2.E._c08_trace.append(("callback", a[2], a[4]))
+            may_fail(I2, "callback")
+            return SOpt(z3.Bool(I2.ctx.fresh_name(f"cb{a[2]}_drops")), I2.fresh(f"cb{a[2]}", "opaque", "Query"))
+        cb = SOpt(cb_none, NativeFn("callback", f_cb))
+        return {"self": me, "args": [rule, "fmt", cb], "rule": rule, "stored": stored, "old_errors": old_errors, "case": case, "conds": conds}
+
+    def post(self, I, inp, r):
+        c, me, rule = I.ctx, inp["self"], inp["rule"]
+        n, backrefs, fin_sub = inp["case"]
+        tr = I.E._c08_trace
+        raised = I.E._c08_raised
+        if raised:
+            # a callee raised a Sigma error and convert_rule returned normally: only allowed with error collection
+            ce = me.fields["collect_errors"]
+            c.require(ops.mk_bool_term(ops.truth(I, ce)), "a Sigma error is swallowed only when the backend collects errors")
+            c.require(isinstance(r, list) and len(r) == 0, "a rule that fails contributes no query")
+            errs = me.fields["errors"]
+            c.require(isinstance(errs, list) and len(errs) == len(inp["old_errors"]) + 1 and errs[:-1] == inp["old_errors"] and isinstance(errs[-1], tuple) and errs[-1][0] is rule and errs[-1][1] is raised[0],
+                      "exactly one (rule, error) record is appended, earlier records untouched")
+            return
+        c.require(me.fields["errors"] == inp["old_errors"], "no error record without an error")
+        c.require(len(tr) >= 1 and tr[0][0] == "apply" and tr[0][1] is rule, "the pipeline is applied to the rule first (transformations before conversion)")
+        conv = [t for t in tr if t[0] == "convert"]
+        c.require([t[1] for t in conv] == [x.fields["parsed"] for x in inp["conds"]], "every condition is converted exactly once, in condition order")
+        states = [t[2] for t in conv]
+        c.require(len({id(s) for s in states}) == len(states) and all(isinstance(s, SObj) and getattr(s, "born", None) is I.ctx for s in states), "one fresh conversion state per condition")
+        c.require(all(s.fields.get("processing_state") == {"k": "v"} and s.fields["processing_state"] is not me.fields["last_processing_pipeline"].fields["state"] for s in states),
+                  "each state gets a copy of the pipeline state")
+        # queries accounted for
+        finals = [t for t in tr if t[0] == "finalize"]
+        expect_final = fin_sub or not backrefs
+        res = inp["stored"].get("result")
+        c.require(isinstance(res, list), "the conversion result is stored on the rule")
+        if isinstance(res, list):
+            if expect_final:
+                c.require(len(finals) == len(res), "every emitted query is finalized (post-processed) exactly once")
+                c.require([t[2] for t in finals] == list(range(len(finals))), "queries are finalized in order")
+            else:
+                c.require(len(finals) == 0, "sub-queries of a correlation are not finalized unless the backend opts in")
+            out = rule.fields["_output"]
+            t = ops.truth(I, out)
+            c.require(z3.If(ops.mk_bool_term(t), z3.BoolVal(r is res or r == res), z3.BoolVal(isinstance(r, list) and len(r) == 0)), "result == the finalized queries if the rule's output is enabled, else nothing")
+            c.require(inp["stored"].get("states") == states, "conversion states are stored on the rule")
+
+    def raises(self, I, inp, exc):
+        me = inp["self"]
+        raised = I.E._c08_raised
+        ok = bool(raised) and exc is raised[0]
+        I.ctx.require(z3.And(z3.BoolVal(ok), z3.Not(ops.mk_bool_term(ops.truth(I, me.fields["collect_errors"])))), f"only the callee's Sigma error propagates, and only without error collection (got {exc_name(exc)})", kind="SAFE")
+        I.ctx.require(me.fields["errors"] == inp["old_errors"], "no error record when the error is raised")
+
+    def frame_ok(self, I, inp, obj, name):
+        return False
